@@ -56,6 +56,7 @@ func scanMain() {
 			n = t % 4 // the empty and tiny collections
 		}
 		utf8Names = order == "utf8"
+		clusteredTypes = fam == "key" && (t/len(fams))%2 == 1
 		key := buildCollection(db, rnd, fam, order, n)
 		utf8Names = false
 		fmt.Fprintf(out, "# trace %d scan %s %s n=%d\n", t, fam, order, n)
@@ -100,6 +101,9 @@ func elemName(i int) string {
 	return fmt.Sprintf("e%02d", i)
 }
 
+// clusteredTypes: the keyspace holds runs of keys of one type
+var clusteredTypes bool
+
 // bigNames: four-digit names and sorted-set scores that follow the insertion order, so that rowid order is
 // index order in the big collections (no D10 there) and a skipped element is a failing input
 var bigNames bool
@@ -133,7 +137,11 @@ func addOne(db *redka.DB, fam, key string, i int, rnd *rand.Rand) {
 			build(db, opZAdd(key, name, float64(rnd.Intn(5))))
 		}
 	case "key":
-		switch i % 5 {
+		ti := i % 5
+		if clusteredTypes {
+			ti = (i / 7) % 5 // runs of seven keys of one type: whole pages without the type asked for
+		}
+		switch ti {
 		case 0:
 			build(db, opStrSet(name, "v", true))
 		case 1:
